@@ -54,8 +54,10 @@ def check(d):
     try:
         sys.path.insert(0, "/verif")
         from sa.check import CLAIMED
-        for pid in CLAIMED:
-            rc, out = sh("%s -m sa.check %s --no-write" % (PY, pid), cwd="/verif")
+        from concurrent.futures import ThreadPoolExecutor
+        with ThreadPoolExecutor(max_workers=12) as ex:
+            outs = list(ex.map(lambda pid: sh("%s -m sa.check %s --no-write" % (PY, pid), cwd="/verif")[1], CLAIMED))
+        for pid, out in zip(CLAIMED, outs):
             for line in out.splitlines():
                 if ": rule " in line and " cannot decide" not in line and not line.startswith("ANALYSIS-ERROR"):
                     fired.setdefault(pid, set()).add(line.split(": rule ")[1].split()[0])
@@ -66,13 +68,16 @@ def check(d):
     return {k: sorted(v) for k, v in fired.items()}
 
 
-def sweep():
-    """every stored seed against every check; writes /verif/seeded/RESULTS.json"""
+def sweep(only=None):
+    """every stored seed against every check; writes /verif/seeded/RESULTS.json
+    (with names: only those seeds, merged into the existing results)"""
     out = {}
     base = "/verif/seeded"
+    if only:
+        out = json.load(open(os.path.join(base, "RESULTS.json")))["seeds"]
     for name in sorted(os.listdir(base)):
         d = os.path.join(base, name)
-        if not os.path.isdir(d):
+        if not os.path.isdir(d) or (only and name not in only):
             continue
         rc, o = sh("git -C %s apply --check %s/patch.diff" % (REPO, d))
         if rc != 0:
@@ -115,7 +120,7 @@ def benign_sweep():
 if __name__ == "__main__":
     cmd = sys.argv[1]
     if cmd == "sweep":
-        sweep()
+        sweep(sys.argv[2:] or None)
     elif cmd == "benign":
         benign_sweep()
     else:
